@@ -24,10 +24,11 @@ OWNER = {
     "other.active": "C08", "other.acl": "C12", "other.enforce": "C12", "other.asof": "C11", "other.error": "C12",
 }
 ALSO = {"search.active": ["C10"], "search.sound": ["C28"], "vsearch.same": ["C13"]}
-DEV_OWNER = {"D09_sketch_recall": "C09", "D16_pagination": "C16"}
-AS_BUILT = eng_core.AS_BUILT + ["D16_pagination"]
+DEV_OWNER = {"D09_sketch_recall": "C09", "D09_slices_crowd": "C09", "D16_pagination": "C16"}
+AS_BUILT = eng_core.AS_BUILT + ["D16_pagination", "D09_slices_crowd"]
 
-VOCAB_WORDS = ["alpha", "bravo", "carbon", "delta", "ember", "fjord", "gamma", "harbor"]
+VOCAB_WORDS = ["alpha", "bravo", "carbon", "delta", "ember", "fjord", "gamma", "harbor", "connected", "connection", "walked", "walking"]
+NW = len(VOCAB_WORDS)
 TENANTS = ["acme", "globex"]
 ROLES = ["admin", "reader"]
 GROUPS = ["g1", "g2"]
@@ -64,11 +65,16 @@ def rand_ctx(rng):
 def make_corpus(rng, n, long_frac):
     docs = []
     for i in range(n):
-        words = sorted(rng.sample(range(8), rng.randint(0, 3)))
+        words = sorted(rng.sample(range(NW), rng.randint(0, 3)))
         tags = sorted(rng.sample([1, 2], rng.randint(0, 2)))
-        size = rng.choice([1500, 1900, 2300]) if rng.random() < long_frac else rng.choice([40, 90, 200, 400])
-        op = {"op": "put", "uri": "mv2://q/%d" % i, "pay": i + 1, "cls": "text", "size": size, "ts": rng.choice([-50, 0, 0, 10, 10, 500, 86400 * 40]),
-              "words": words, "tags": ["tag-%d" % t for t in tags], "atoms": ["w%d" % w for w in words] + ["T%d" % t for t in tags]}
+        size = rng.choice([1500, 1900, 2300]) if rng.random() < long_frac else rng.choice([40, 90, 200, 400, 700])
+        # a third of the short documents repeat their words at the end (several snippet slices per document)
+        cls = "text2" if (size in (400, 700) or (size < 1500 and rng.random() < 0.3)) else "text"
+        if size < 400 and len(words) >= 2 and rng.random() < 0.35:
+            cls = "textc"          # words separated by commas: they are in the document, but no phrase of two of them is
+        op = {"op": "put", "uri": "mv2://q/%d" % i, "pay": i + 1, "cls": cls, "size": size, "ts": rng.choice([-50, 0, 0, 10, 10, 500, 86400 * 40]),
+              "words": words, "tags": ["tag-%d" % t for t in tags], "atoms": ["w%d" % w for w in words] + ["T%d" % t for t in tags]
+              + (["P%d_%d" % (a, b) for a, b in zip(words, words[1:])] if cls != "textc" else [])}
         acl = rand_acl(rng)
         if acl:
             op["acl"] = acl
@@ -89,13 +95,18 @@ def battery(rng, qid0, ndocs, quick, light=False):
             d["qid"] = qid[0]
         qs.append(d)
 
-    words = list(range(8))
-    for w in (rng.sample(words, 3) if (quick or light) else words):
+    words = list(range(NW))
+    for w in ((rng.sample(words[:8], 2) + rng.sample(words[8:], 2)) if (quick or light) else words):
         for ns in (False, True):
             q({"op": "search", "toks": ["w%d" % w], "single": "w%d" % w, "top_k": 200, "no_sketch": ns})
     for _ in range(3 if light else (6 if quick else 14)):
         e = eng_func.q_rand_ast(rng, rng.randint(1, 3), ["w%d" % w for w in words] + ["T1", "T2"])
         q({"op": "search", "toks": eng_func.q_show(e, 0, rng.random() < 0.5), "top_k": rng.choice([1, 3, 10, 50]), "no_sketch": rng.random() < 0.5})
+    # quoted phrases of two words (adjacent in some documents, comma-separated or apart in others)
+    for _ in range(2 if (quick or light) else 8):
+        a = rng.randrange(NW - 1)
+        b = rng.randrange(a + 1, min(NW, a + 4))
+        q({"op": "search", "toks": ["P%d_%d" % (a, b)], "top_k": 50, "no_sketch": rng.random() < 0.5})
     if not light:
         # time travel
         for _ in range(3 if quick else 6):
@@ -195,6 +206,29 @@ def pagination_scenario(rng, n, quick):
     return ops
 
 
+def recall_scenario(rng, n, quick):
+    """C09 with a small top_k: a corpus much larger than 10 * top_k in which a rare word is planted in a few documents of
+    varying length (so that nothing but the word itself makes them rank), searched with top_k just above their number, with and
+    without the pre-filter, before and after reopen; and a few documents that yield several snippet slices each."""
+    ops = [{"op": "create"}]
+    rare = {9: rng.sample(range(n), 4), 11: rng.sample(range(n), 3)}
+    for i in range(n):
+        words = sorted(set(rng.sample(range(8), rng.randint(1, 3)) + [w for w, ds in rare.items() if i in ds]))
+        big = i in rare[9] or rng.random() < 0.2
+        ops.append({"op": "put", "uri": "mv2://r/%d" % i, "pay": i + 1, "cls": "text", "size": rng.choice([1200, 1800, 2200]) if big else rng.choice([60, 150, 300]),
+                    "ts": i % 11, "words": words, "atoms": ["w%d" % w for w in words]})
+    # three documents that mention w10 at both ends (two snippet slices each)
+    for j in range(3):
+        ops.append({"op": "put", "uri": "mv2://r/multi%d" % j, "pay": n + j + 1, "cls": "text2", "size": 700, "ts": 3, "words": [10], "atoms": ["w10"]})
+    ops.append({"op": "commit"})
+    qs = []
+    for w, k in ((9, 5), (9, 4), (11, 3), (11, 5), (10, 3), (10, 6)):
+        for ns in (False, True):
+            qs.append({"op": "search", "toks": ["w%d" % w], "single": "w%d" % w, "top_k": k, "no_sketch": ns})
+    ops += qs + [{"op": "close"}, {"op": "open"}] + [dict(q) for q in qs] + [{"op": "close"}, {"op": "open_ro"}] + [dict(q) for q in qs[:4]] + [{"op": "close"}]
+    return ops
+
+
 def scenario_bulk(rng, quick, n, mode):
     """C40: the same kind of corpus ingested through a bulk path; the ordinary contracts (frame table, payloads,
     embeddings, timeline, recall, soundness, exact k-NN) must hold exactly as for plain puts + commit."""
@@ -228,6 +262,7 @@ def engine(tier):
     quick = tier == "quick"
     rng = random.Random(seed() * 3571 + (5 if quick else 6))
     scs = [{"id": 1, "ops": pagination_scenario(rng, 48 if quick else 90, quick)}]
+    scs.append({"id": 2, "ops": recall_scenario(rng, 130 if quick else 190, quick)})
     sizes = [6, 14, 30] if quick else [4, 8, 14, 24, 40, 60, 90, 120] * 3
     for n in sizes:
         scs.append({"id": len(scs) + 1, "ops": scenario(rng, quick, n)})
